@@ -174,9 +174,91 @@ func Not(a *Term) *Term {
 	return mk(&Term{op: ONot, args: []*Term{a}})
 }
 
+// Large conjunctions (path conditions, map-entry guards) are kept as nested terms: an and/or term with more than
+// bigN arguments is treated as one atom when it is conjoined further, so that And(pc, c) costs O(1) instead of
+// O(|pc|). Membership of a literal in a big term (for x∧¬x, x∧x and v=3∧v=5 folding) is answered by a cached index.
+const bigN = 12
+
+type bigInfo struct {
+	lits map[int]struct{}
+	eqc  map[int]uint64
+	kids []*bigInfo
+}
+
+var bigTab = map[int]*bigInfo{}
+
+func bigOf(t *Term) *bigInfo {
+	if b, ok := bigTab[t.id]; ok {
+		return b
+	}
+	b := &bigInfo{lits: make(map[int]struct{}, len(t.args))}
+	for _, a := range t.args {
+		if a.op == t.op && len(a.args) > bigN {
+			b.kids = append(b.kids, bigOf(a))
+			continue
+		}
+		b.lits[a.id] = struct{}{}
+		if t.op == OAnd && a.op == OEq && a.args[0].IsConst() != a.args[1].IsConst() {
+			v, k := a.args[0], a.args[1]
+			if v.IsConst() {
+				v, k = k, v
+			}
+			if b.eqc == nil {
+				b.eqc = map[int]uint64{}
+			}
+			b.eqc[v.id] = k.val
+		}
+	}
+	bigTab[t.id] = b
+	return b
+}
+
+func (b *bigInfo) has(id int) bool {
+	if _, ok := b.lits[id]; ok {
+		return true
+	}
+	for _, k := range b.kids {
+		if k.has(id) {
+			return true
+		}
+	}
+	return false
+}
+
+func (b *bigInfo) eq(v int) (uint64, bool) {
+	if x, ok := b.eqc[v]; ok {
+		return x, true
+	}
+	for _, k := range b.kids {
+		if x, ok := k.eq(v); ok {
+			return x, true
+		}
+	}
+	return 0, false
+}
+
 func nary(op Op, unit, zero *Term, xs []*Term) *Term {
+	// fast paths: drop units, detect zero, single remaining argument
+	var only *Term
+	nn := 0
+	for _, x := range xs {
+		if x == zero {
+			return zero
+		}
+		if x != unit && x != only {
+			only = x
+			nn++
+		}
+	}
+	if nn == 0 {
+		return unit
+	}
+	if nn == 1 {
+		return only
+	}
 	var out []*Term
 	var eqc map[int]uint64
+	var bigs []*bigInfo
 	seen := idset{}
 	for _, x := range xs {
 		if x == zero {
@@ -186,7 +268,7 @@ func nary(op Op, unit, zero *Term, xs []*Term) *Term {
 			continue
 		}
 		var parts []*Term
-		if x.op == op {
+		if x.op == op && len(x.args) <= bigN {
 			parts = x.args
 		} else {
 			parts = []*Term{x}
@@ -203,7 +285,9 @@ func nary(op Op, unit, zero *Term, xs []*Term) *Term {
 			} else if n, ok := negOf[p.id]; ok && seen.has(n.id) {
 				return zero
 			}
-			if op == OAnd && p.op == OEq && p.args[0].IsConst() != p.args[1].IsConst() {
+			if p.op == op && len(p.args) > bigN {
+				bigs = append(bigs, bigOf(p))
+			} else if op == OAnd && p.op == OEq && p.args[0].IsConst() != p.args[1].IsConst() {
 				v, k := p.args[0], p.args[1]
 				if v.IsConst() {
 					v, k = k, v
@@ -220,16 +304,56 @@ func nary(op Op, unit, zero *Term, xs []*Term) *Term {
 			out = append(out, p)
 		}
 	}
+	inBigs := func(id int) bool {
+		for _, b := range bigs {
+			if b.has(id) {
+				return true
+			}
+		}
+		return false
+	}
+	if len(bigs) > 0 {
+		kept := out[:0:0]
+		for _, p := range out {
+			if p.op == op && len(p.args) > bigN {
+				kept = append(kept, p)
+				continue
+			}
+			if inBigs(p.id) {
+				continue // already a literal of a nested conjunction
+			}
+			if p.op == ONot {
+				if inBigs(p.args[0].id) {
+					return zero
+				}
+			} else if n, ok := negOf[p.id]; ok && inBigs(n.id) {
+				return zero
+			}
+			if op == OAnd && p.op == OEq && p.args[0].IsConst() != p.args[1].IsConst() {
+				v, k := p.args[0], p.args[1]
+				if v.IsConst() {
+					v, k = k, v
+				}
+				for _, b := range bigs {
+					if prev, ok := b.eq(v.id); ok && prev != k.val {
+						return zero
+					}
+				}
+			}
+			kept = append(kept, p)
+		}
+		out = kept
+	}
 	// ¬(a∧b) together with a and b (dually for or): contradiction / tautology
 	for _, p := range out {
 		if p.op != ONot {
 			continue
 		}
 		q := p.args[0]
-		if op == OAnd && q.op == OAnd || op == OOr && q.op == OOr {
+		if (op == OAnd && q.op == OAnd || op == OOr && q.op == OOr) && len(q.args) <= bigN {
 			all := true
 			for _, a := range q.args {
-				if !seen.has(a.id) {
+				if !seen.has(a.id) && !inBigs(a.id) {
 					all = false
 					break
 				}
@@ -632,6 +756,22 @@ func (t *Term) body() string {
 		return "(bvsle " + a(0) + " " + a(1) + ")"
 	case OLshr:
 		return "(bvlshr " + a(0) + " " + a(1) + ")"
+	case OShl:
+		return "(bvshl " + a(0) + " " + a(1) + ")"
+	case OAshr:
+		return "(bvashr " + a(0) + " " + a(1) + ")"
+	case OBvOr:
+		return "(bvor " + a(0) + " " + a(1) + ")"
+	case OBvXor:
+		return "(bvxor " + a(0) + " " + a(1) + ")"
+	case OUdiv:
+		return "(bvudiv " + a(0) + " " + a(1) + ")"
+	case OUrem:
+		return "(bvurem " + a(0) + " " + a(1) + ")"
+	case OSdiv:
+		return "(bvsdiv " + a(0) + " " + a(1) + ")"
+	case OSrem:
+		return "(bvsrem " + a(0) + " " + a(1) + ")"
 	case OBvAnd:
 		return "(bvand " + a(0) + " " + a(1) + ")"
 	case OZext:
